@@ -175,6 +175,111 @@ def check(model, rep):
         ok = ilr.same(wb[0].args[0], '%s.copy()@tm(SOL)' % bp, roles=R) and ilr.same(wb[0].args[1], '%s.copy()' % bp, roles=R)
     rep.ob('R09.3', fr, 'solved pose = bottom pose @ tm(relative solution), written back through _IKHelper(top, bottom)', ok,
            'write-back is _IKHelper(%s)' % got)
+    # ---------------------------------------------------------------- R09.5
+    rep.rule('R09.5', 'Newton FK kernel: the height floor applied to the iterate excludes no workspace pose (threshold <= leg_ext_min / 2, the bound the '
+                      'kernel is documented and exercised with); the residual it drives to zero is |top_i - bottom_i|^2 - L_i^2')
+    from fractions import Fraction
+    from ..engine.inline import norm_text as _nt2
+    kf = model.func(FHP, 'SPFKinSpaceR')
+    if len(kf.params) < 8:
+        raise AnalysisError('SPFKinSpaceR lost its parameters')
+    L_p, init_p, bj_p, tj_p, lmin_p = kf.params[0], kf.params[1], kf.params[2], kf.params[3], kf.params[7]
+    ilk = Inliner(kf)
+    wl = [n for n in kf.body() if isinstance(n, ast.While)]
+    if len(wl) != 1:
+        raise AnalysisError('SPFKinSpaceR: Newton loop not recognised')
+    # the iterate: the local that starts as the initial guess and is re-bound at the end of a round
+    iters = {n.targets[0].id for n in kf.body() if isinstance(n, ast.Assign) and isinstance(n.targets[0], ast.Name) and _nt2(n.value) in (init_p, init_p + '.copy()', 'np.copy(%s)' % init_p)}
+    if len(iters) != 1:
+        raise AnalysisError('SPFKinSpaceR: iterate variable not recognised (%s)' % sorted(iters))
+    g = iters.pop()
+
+    def lin(e):
+        """value of e as a multiple of leg_ext_min (Fraction) or None"""
+        def ev(x, l):
+            if isinstance(x, ast.Constant) and isinstance(x.value, (int, float)) and not isinstance(x.value, bool):
+                return Fraction(str(x.value))
+            if isinstance(x, ast.Name):
+                if x.id == lmin_p:
+                    return Fraction(l)
+                v_ = ilk.single(x.id)
+                return ev(v_, l) if v_ is not None else None
+            if isinstance(x, ast.UnaryOp) and isinstance(x.op, ast.USub):
+                v_ = ev(x.operand, l)
+                return None if v_ is None else -v_
+            if isinstance(x, ast.BinOp) and isinstance(x.op, (ast.Add, ast.Sub, ast.Mult, ast.Div)):
+                a_, b_ = ev(x.left, l), ev(x.right, l)
+                if a_ is None or b_ is None:
+                    return None
+                if isinstance(x.op, ast.Add):
+                    return a_ + b_
+                if isinstance(x.op, ast.Sub):
+                    return a_ - b_
+                if isinstance(x.op, ast.Mult):
+                    return a_ * b_
+                return a_ / b_ if b_ != 0 else None
+            return None
+        v1, v2 = ev(e, 1), ev(e, 2)
+        if v1 is None or v2 is None or v2 != 2 * v1:
+            return None
+        return v1
+    floors = []
+    for n in ast.walk(wl[0]):
+        if isinstance(n, ast.If) and isinstance(n.test, ast.Compare) and len(n.test.ops) == 1:
+            l_, op_, r_ = n.test.left, n.test.ops[0], n.test.comparators[0]
+            if isinstance(op_, (ast.Gt, ast.GtE)):
+                l_, r_ = r_, l_
+            elif not isinstance(op_, (ast.Lt, ast.LtE)):
+                continue
+            if _nt2(ilk.expand(l_)) == '%s[2]' % g and any(isinstance(a_, ast.Assign) and _nt2(a_.targets[0]) == '%s[2]' % g for a_ in n.body):
+                floors.append((n, r_))
+        if isinstance(n, ast.Assign) and _nt2(n.targets[0]) == '%s[2]' % g and isinstance(n.value, ast.Call) and _nt2(n.value.func) in ('max', 'np.maximum') \
+                and len(n.value.args) == 2:
+            other_ = [a_ for a_ in n.value.args if _nt2(ilk.expand(a_)) != '%s[2]' % g]
+            if len(other_) == 1:
+                floors.append((n, other_[0]))
+    for (n, thr) in floors:
+        a_ = lin(thr)
+        rep.ob('R09.5', kf, 'height floor ' + src(thr)[:40] + ' is a multiple of the minimum leg length', a_ is not None,
+               'threshold %s is not of the form c * %s' % (src(thr), lmin_p), shape=True, line=n.lineno)
+        if a_ is not None:
+            rep.ob('R09.5', kf, 'height floor <= leg_ext_min / 2', a_ <= Fraction(1, 2),
+                   'iterates below %s * %s are pushed back up: on flat platforms (plate distance below that, e.g. small top/bottom radius ratio) the true '
+                   'pose lies below the floor and the iteration can never reach it, so FK no longer inverts IK there' % (a_, lmin_p), line=n.lineno)
+    rep.count('height clamps in the Newton kernel', len(floors))
+    # the residual: the only use of the requested lengths is  sum(square(xbar + uvw), 1) - square(L)  (either sign), xbar from the bottom table
+    res = [n for n in ast.walk(wl[0]) if isinstance(n, ast.Assign) and L_p in {x.id for x in ast.walk(n.value) if isinstance(x, ast.Name)}]
+    ok_res = False
+    got_res = '?'
+    if len(res) == 1:
+        got_res = _nt2(ilk.expand(res[0].value))
+        import re as _re2
+        core = _re2.sub(r'^-1\*\((.*)\)$|^-\((.*)\)$', lambda m_: m_.group(1) or m_.group(2), got_res)
+        xb = '%s[0:3]-%s' % (g, bj_p)
+        forms = ['np.sum(np.square(%s+UVW),1)-np.square(%s)' % (xb, L_p), 'np.square(%s)-np.sum(np.square(%s+UVW),1)' % (L_p, xb),
+                 'np.sum((%s+UVW)**2,1)-%s**2' % (xb, L_p), 'np.sum(np.square(%s+UVW),axis=1)-np.square(%s)' % (xb, L_p)]
+        uv = {n.targets[0].id for n in ast.walk(kf.node) if isinstance(n, ast.Assign) and isinstance(n.targets[0], ast.Name) and _nt2(n.value).startswith('np.zeros(%s.shape' % tj_p)}
+        for u_ in uv:
+            if core.replace(u_, 'UVW') in forms or got_res.replace(u_, 'UVW') in forms:
+                ok_res = True
+        # a named sum (leg_vectors = xbar + uvw) is inlined by expand already
+    rep.ob('R09.5', kf, 'residual = squared joint distances - squared requested lengths', ok_res,
+           'the quantity driven to zero is %s' % got_res[:160], line=res[0].lineno if res else None, shape=not res)
+    uv_names = {n.targets[0].id for n in ast.walk(kf.node) if isinstance(n, ast.Assign) and isinstance(n.targets[0], ast.Name) and _nt2(n.value).startswith('np.zeros(%s.shape' % tj_p)}
+    rot = [n for n in ast.walk(wl[0]) if isinstance(n, ast.Assign) and isinstance(n.targets[0], ast.Subscript) and isinstance(n.targets[0].value, ast.Name)
+           and n.targets[0].value.id in uv_names]
+
+    def row_form(n):
+        sl = n.targets[0].slice
+        iv_ = sl.elts[0].id if isinstance(sl, ast.Tuple) and sl.elts and isinstance(sl.elts[0], ast.Name) else None
+        t_ = _nt2(ilk.expand(n.value))
+        if iv_:
+            t_ = _nt2(ast.unparse(ast.parse(ast.unparse(ilk.expand(n.value))))).replace('[%s,:]' % iv_, '[I,:]')
+        return t_
+    ok_rot = bool(rot) and all(row_form(n) in ('np.dot(MatrixExp3(VecToso3(%s[3:6])),%s[I,:])' % (g, tj_p), 'MatrixExp3(VecToso3(%s[3:6]))@%s[I,:]' % (g, tj_p)) for n in rot)
+    rep.ob('R09.5', kf, 'top joints rotated by exp([guess[3:6]]) row by row', ok_rot, 'rotated top joints are %s' % [row_form(n)[:80] for n in rot][:2],
+           line=rot[0].lineno if rot else None, shape=not rot)
+
     # ---------------------------------------------------------------- R09.4
     rep.rule('R09.4', 'the inversion test FK applies to a solver result measures the top plate height in the bottom plate\'s frame')
     from .c10 import constraint_definitions
